@@ -136,14 +136,19 @@ Definition rtp_boundary (fx : fixes) (kind : N) (body : bytes) : res bool :=
     | Panic _ => Panic s_hevc_boundary | r => r end
   else Ok true.
 
-Definition feed_rtp (fx : fixes) (wk : bool) (sdp : option (bool * N)) (subs : list rsub) (body : bytes) : res (list rsub) :=
+(* only a packet of the video track can start a GOP (fix F-34: `isVideo && IsAvcBoundary(pkt)`, the classifier is
+   not even called for an audio packet); with a codec lal cannot classify every packet passes *)
+Definition rtp_gate (fx : fixes) (kind : N) (vb : bool * bytes) : res bool :=
+  if (kind =? 1) || (kind =? 2) then (if fst vb then rtp_boundary fx kind (snd vb) else Ok false) else Ok true.
+
+Definition feed_rtp (fx : fixes) (wk : bool) (sdp : option (bool * N)) (subs : list rsub) (body : bool * bytes) : res (list rsub) :=
   if negb wk then Ok subs
   else if existsb (fun r => rb_play r && rb_wait r) subs then
-    let* bd := (match sdp with Some (_, kind) => rtp_boundary fx kind body | None => Ok false end) in
+    let* bd := (match sdp with Some (_, kind) => rtp_gate fx kind body | None => Ok false end) in
     Ok (if bd then map (fun r => if rb_play r && rb_wait r then mk_rsub true false else r) subs else subs)
   else Ok subs.
 
-Fixpoint feed_rtp_all (fx : fixes) (wk : bool) (sdp : option (bool * N)) (subs : list rsub) (l : list bytes) : res (list rsub) :=
+Fixpoint feed_rtp_all (fx : fixes) (wk : bool) (sdp : option (bool * N)) (subs : list rsub) (l : list (bool * bytes)) : res (list rsub) :=
   match l with
   | [] => Ok subs
   | b :: t => let* s' := feed_rtp fx wk sdp subs b in feed_rtp_all fx wk sdp s' t
